@@ -90,6 +90,8 @@ pub open spec fn stsd_at(d: Seq<u8>, q: int, b: StsdBox) -> bool {
     &&& (b.mp4a is Some <==> n == BoxType::Mp4aBox) && (b.tx3g is Some <==> n == BoxType::Tx3gBox)
     &&& (b.avc1 matches Some(x) ==> avc1_at(d, child_q(d, p), child_size(d, p), x))
     &&& (b.mp4a matches Some(x) ==> mp4a_at(d, child_q(d, p), child_size(d, p), x))
+    &&& (b.vp09 matches Some(x) ==> vp09_at(d, child_q(d, p), x))
+    &&& (b.hev1 matches Some(x) ==> hev1_at(d, child_q(d, p), x))
 }
 
 // ---- avcC, encode side: reference bytes (ISO/IEC 14496-15 5.3.3.1; reserved bits are ones)
@@ -137,4 +139,42 @@ pub open spec fn trun_at(d: Seq<u8>, p: int, b: TrunBox) -> bool {
     &&& (!flag_set(b.flags, 0x04) ==> b.first_sample_flags is None)
     &&& trun_parsed(b)
     &&& trun_samples_at(d, p, b.flags, b.sample_durations@, b.sample_sizes@, b.sample_flags@, b.sample_cts@, b.sample_count as int)
+}
+
+/// VP9 sample entry 'vp09' (VisualSampleEntry layout, as this crate reads it) whose body starts at q; the configuration box
+/// is the child that follows the 78 fixed bytes (the crate does not check its type)
+pub open spec fn vp09_at(d: Seq<u8>, q: int, b: Vp09Box) -> bool {
+    &&& b.version == d[q] && b.flags == be24(d, q + 1)
+    &&& b.start_code == be16(d, q + 4) && b.data_reference_index == be16(d, q + 6)
+    &&& b.width == be16(d, q + 24) && b.height == be16(d, q + 26)
+    &&& b.horizresolution == (be16(d, q + 28), be16(d, q + 30)) && b.vertresolution == (be16(d, q + 32), be16(d, q + 34))
+    &&& b.frame_count == be16(d, q + 40) && b.depth == be16(d, q + 74) && b.end_code == be16(d, q + 76)
+    &&& vpcc_at(d, child_q(d, q + 78) - 8, b.vpcc)
+}
+
+// ---- hvcC: HEVCDecoderConfigurationRecord (ISO/IEC 14496-15 8.3.3.1.2), the 23 fixed bytes, first byte at q:
+//   configurationVersion(8)  general_profile_space(2) general_tier_flag(1) general_profile_idc(5)
+//   general_profile_compatibility_flags(32)  general_constraint_indicator_flags(48)  general_level_idc(8)
+//   reserved(4) min_spatial_segmentation_idc(12)  reserved(6) parallelismType(2)  reserved(6) chromaFormat(2)
+//   reserved(5) bitDepthLumaMinus8(3)  reserved(5) bitDepthChromaMinus8(3)  avgFrameRate(16)
+//   constantFrameRate(2) numTemporalLayers(3) temporalIdNested(1) lengthSizeMinusOne(2)  numOfArrays(8)
+pub open spec fn hvcc_head_at(d: Seq<u8>, q: int, b: HvcCBox) -> bool {
+    &&& b.configuration_version == d[q]
+    &&& b.general_profile_space == d[q + 1] >> 6 && b.general_tier_flag == ((d[q + 1] >> 5) & 1 == 1) && b.general_profile_idc == d[q + 1] & 0x1f
+    &&& b.general_profile_compatibility_flags == be32(d, q + 2) && b.general_constraint_indicator_flag == be48(d, q + 6)
+    &&& b.general_level_idc == d[q + 12] && b.min_spatial_segmentation_idc == be16(d, q + 13) & 0x0fff
+    &&& b.parallelism_type == d[q + 15] & 3 && b.chroma_format_idc == d[q + 16] & 3
+    &&& b.bit_depth_luma_minus8 == d[q + 17] & 7 && b.bit_depth_chroma_minus8 == d[q + 18] & 7
+    &&& b.avg_frame_rate == be16(d, q + 19)
+    &&& b.constant_frame_rate == d[q + 21] >> 6 && b.num_temporal_layers == (d[q + 21] >> 3) & 7
+    &&& b.temporal_id_nested == ((d[q + 21] >> 2) & 1 == 1) && b.length_size_minus_one == d[q + 21] & 3
+    &&& b.arrays@.len() == d[q + 22]
+}
+/// VisualSampleEntry 'hev1' whose body starts at q: 78 fixed bytes, then hvcC as the first child
+pub open spec fn hev1_at(d: Seq<u8>, q: int, b: Hev1Box) -> bool {
+    &&& b.data_reference_index == be16(d, q + 6)
+    &&& b.width == be16(d, q + 24) && b.height == be16(d, q + 26)
+    &&& b.horizresolution.0.numer == be32(d, q + 28) && b.vertresolution.0.numer == be32(d, q + 32)
+    &&& b.frame_count == be16(d, q + 40) && b.depth == be16(d, q + 74)
+    &&& child_name(d, q + 78) == BoxType::HvcCBox && hvcc_head_at(d, child_q(d, q + 78), b.hvcc)
 }
